@@ -1558,6 +1558,31 @@ func refTemplatesThroughCallers(w *World, fn *ssa.Function, arg ssa.Value, depth
 	return dedupT(out)
 }
 
+// viaHelper: i is a call of a same-package helper (one level) whose body contains an instruction satisfying
+// pred — unconditionally within its loop when uncond is set. Extracting a block into a helper keeps the step.
+func viaHelper(w *World, i ssa.Instruction, pred func(ssa.Instruction) bool, uncond bool) bool {
+	ci, ok := i.(ssa.CallInstruction)
+	if !ok || i.Parent() == nil {
+		return false
+	}
+	h := ci.Common().StaticCallee()
+	if h == nil {
+		return false
+	}
+	hb := bodyOf(h)
+	if hb == nil || len(hb.Blocks) == 0 || fnPkgPath(hb) == "" || fnPkgPath(hb) != fnPkgPath(bodyOf(i.Parent())) {
+		return false
+	}
+	for _, b := range hb.Blocks {
+		for _, ins := range b.Instrs {
+			if pred(ins) && (!uncond || unconditionalInLoop(w, ins) == "") {
+				return true
+			}
+		}
+	}
+	return false
+}
+
 // checkForgetsAfterRemoval: the cache forgets an entity only once its references are gone: a removal that
 // failed half-way must leave the entity addressable (and removable again) in this session. Shared with C13
 // (every prefix of the id of an existing entity resolves).
@@ -1610,7 +1635,7 @@ func checkForgetsAfterRemoval(c *Ctx, rule string) {
 		for _, b := range fn.Blocks {
 			for _, ins := range b.Instrs {
 				for _, k := range []string{"delete-cached", "delete-excerpts", "lru-remove", "index-removal"} {
-					if forget[k](ins) {
+					if forget[k](ins) || viaHelper(w, ins, forget[k], false) {
 						c.Sites++
 						n++
 						if !dominatedBySuccess(removal, ins) {
@@ -2177,6 +2202,11 @@ func checkRemovalSteps(c *Ctx) {
 						if pred(ins) && unconditionalInLoop(w, ins) == "" {
 							found = true
 						}
+						if viaHelper(w, ins, pred, true) {
+							if bad, _, _ := pathSearch(fn, nil, nil, isSuccessReturn, func(i2 ssa.Instruction) bool { return i2 == ins }, false); !bad {
+								found = true
+							}
+						}
 					}
 				}
 				if m == "RemoveAll" {
@@ -2184,7 +2214,7 @@ func checkRemovalSteps(c *Ctx) {
 					continue
 				}
 			}
-			bad, p, _ := pathSearch(fn, nil, nil, isSuccessReturn, pred, false)
+			bad, p, _ := pathSearch(fn, nil, nil, isSuccessReturn, func(i2 ssa.Instruction) bool { return pred(i2) || viaHelper(w, i2, pred, false) }, false)
 			c.Check(!bad, "R14.2", "SubCache."+m+":"+k, w.FnPos(fn), "on every success path", "SubCache."+m+" can succeed without "+k+": "+blocksString(w, p))
 		}
 	}
